@@ -213,3 +213,40 @@ func vMessageShort() string {
 	}
 	return m
 }
+
+// VerifC11_FormattedVariantsAgree: the ...f constructors are the formatted
+// versions of the plain ones: for every target kind and every sort of cause
+// (none, a plain error, a common error of another kind, a cancellation, a
+// deadline) both produce the same text and are recognised as the same kinds.
+func VerifC11_FormattedVariantsAgree() {
+	target := vKinds[verif.Choice("kind", len(vKinds))]
+	if verif.Bool("rawContextTarget") {
+		target = []error{context.Canceled, context.DeadlineExceeded}[verif.Choice("rawTarget", 2)]
+	}
+	var cause error
+	switch verif.Choice("cause", 5) {
+	case 1:
+		cause = errors.New("plain failure")
+	case 2:
+		cause = New(vKinds[verif.Choice("causeKind", len(vKinds))], "inner")
+	case 3:
+		cause = context.Canceled
+	case 4:
+		cause = context.DeadlineExceeded
+	}
+	msg := vMessageShort()
+	var plain, formatted error
+	switch verif.Choice("ctor", 3) {
+	case 0:
+		plain, formatted = New(target, msg), Newf(target, "%v", msg)
+	case 1:
+		plain, formatted = WrapError(target, cause, msg), WrapErrorf(target, cause, "%v", msg)
+	case 2:
+		plain, formatted = WrapIfNotCommonError(target, cause, msg), WrapIfNotCommonErrorf(target, cause, "%v", msg)
+	}
+	verif.Assert("both_build_an_error", plain != nil && formatted != nil)
+	verif.Assert("same_text", plain.Error() == formatted.Error())
+	for _, k := range vKinds {
+		verif.Assert("same_kinds", Any(plain, k) == Any(formatted, k))
+	}
+}
